@@ -257,6 +257,21 @@ def run_case(case):
                 where = traceback.extract_tb(e.__traceback__)[-1]
                 site = f"{os.path.basename(where.filename)}:{where.name}"
                 if descriptive(e) and n == 0:
+                    # a refusal must be repeatable as well: the same instance, elaborated again, is refused
+                    # again in the same way (no stale state left behind by the refused attempt)
+                    first = (type(e).__name__, str(e))
+                    for again in range(2):
+                        try:
+                            convert(c, extra)
+                            out["fails"].append(("C19", f"{kind} {descr}: elaboration was refused ({first[0]}) the first time but succeeded when repeated", "refusal-not-repeatable"))
+                            break
+                        except Timeout:
+                            raise
+                        except BaseException as e2:
+                            if (type(e2).__name__, str(e2)) != first:
+                                out["fails"].append(("C19", f"{kind} {descr}: first elaboration refused with {first[0]}: {first[1][:60]}; repeated elaboration "
+                                                            f"fails with {type(e2).__name__}: {str(e2)[:80]}", f"refusal-changes:{type(e2).__name__}"))
+                                break
                     out["status"] = "refused-elab"
                     return out
                 out["status"] = "internal"
